@@ -5122,3 +5122,48 @@ mutant('C01-output-blob-cleaned-wholesale', 'C01',
          "        output[\"config\"] = safe_config\n"
          "        output = clean_for_json(output)\n")],
        'R-SAMEVAL/results-written-as-computed', 'run_mapping')
+twin('C14-twin-markers-published-after-transposition-in-callee', 'C14',
+     'the reference-marker file is moved to the requested path by the '
+     'callee, after its transposition',
+     [(_MK, "                    data=src['indices'],\n"
+       "                    chunks=src['indices'].chunks)\n\n"
+       "    _clean_up(tmp_dir)\n",
+       "                    data=src['indices'],\n"
+       "                    chunks=src['indices'].chunks)\n\n"
+       "    _clean_up(tmp_dir)\n"
+       "    if dst_path is not None:\n"
+       "        shutil.move(src=h5_path, dst=dst_path)\n"),
+      (_MK, "        tmp_dir,\n        n_processors=1):\n    \"\"\"\n"
+       "    Add the \"sparse_by_gene\" representation",
+       "        tmp_dir,\n        n_processors=1,\n"
+       "        dst_path=None):\n    \"\"\"\n"
+       "    Add the \"sparse_by_gene\" representation"),
+      (_PMK, "        n_processors=n_processors)\n"
+       "    print(f'===== transposition took {time.time()-t0:.2e} "
+       "=====')\n\n"
+       "    t0 = time.time()\n"
+       "    shutil.move(\n"
+       "        src=tmp_thinned_path,\n"
+       "        dst=output_path)\n",
+       "        n_processors=n_processors,\n"
+       "        dst_path=output_path)\n"
+       "    print(f'===== transposition took {time.time()-t0:.2e} "
+       "=====')\n\n"
+       "    t0 = time.time()\n")])
+twin('C13-twin-shuffle-reads-both-pointers-at-once', 'C13',
+     'shuffle_csr_h5ad_rows reads the two pointers of a row as one window',
+     [(_AU, "                src0 = src_indptr[old_r]\n"
+       "                src1 = src_indptr[old_r+1]\n"
+       "                dst1 = dst0 + (src1-src0)\n",
+       "                src0, src1 = src_indptr[old_r:old_r+2]\n"
+       "                dst1 = dst0 + (src1-src0)\n")])
+twin('C18-twin-reconciliation-presence-through-a-local', 'C18',
+     'the reconciliation names the presence test',
+     [(_TU, "            if parent_grp not in markers:\n",
+       "            present = parent_grp in markers\n"
+       "            if not present:\n")])
+twin('C01-twin-output-blob-copied', 'C01',
+     'run_mapping works on a deep copy of the blob it was handed',
+     [(_FSM, "        output[\"config\"] = safe_config\n",
+       "        output = copy.deepcopy(output)\n"
+       "        output[\"config\"] = safe_config\n")])
